@@ -646,8 +646,8 @@ func (m *Machine) build(op Op, pid, secret string) *harness.Req {
 		f := map[string]string{m.pidField(): pid, "password": secret}
 		if op.F {
 			f["rm"] = "true"
-		} else if op.N == 1 {
-			f["rm"] = "false"
+		} else if op.N >= 1 && op.N <= len(rmRefusals) {
+			f["rm"] = rmRefusals[op.N-1]
 		}
 		route := "/login"
 		if op.K == "otplogin" {
@@ -809,6 +809,10 @@ func (m *Machine) provider(n int) string {
 var needsSecret = map[string]bool{"login": true, "otplogin": true, "register": true, "confirm": true, "recend": true, "recget": true,
 	"o2cb": true, "totpconfirm": true, "totpremove": true, "totpvalidate": true, "smsconfirm": true, "smsremove": true,
 	"smsvalidate": true, "evend": true, "setcookie": true}
+
+// rmRefusals: what clients send in the remember-me field when the user did NOT ask to be
+// remembered (an unticked box submitted by script, a serialised null, another framework's spelling of no).
+var rmRefusals = []string{"false", "off", "no", "0", "null", "fAlSe", "false ", "", "undefined", "FALSE"}
 
 // hangJudge is implemented by monitors for which a request that never returns is a violation.
 type hangJudge interface {
